@@ -277,6 +277,32 @@ def motif_cancel_scheduled(rng):
             "prio": {"policy": pol, "vals": {"0": 2, "1": 1, "2": 0}, "hashes": {"order": [rng.randint(0, 7) for _ in range(5)]}}}
 
 
+def motif_out_of_band_flush(rng):
+    """Tasks are blocked on a batch (it is scheduled); a sibling written after them reads one of
+    its requests synchronously with item.value(), which flushes the batch out of band, and goes on
+    to need - or not - a further scheduler flush. With KEEP_DEPENDENCIES the flushed batch keeps
+    its items while it is still registered with the scheduler."""
+    na = rng.randint(1, 3)
+    kinds = 2
+    a = [["y", ["item", 0, rng.randint(0, 5)]]] + [["y", ["item", rng.randint(0, 1), rng.randint(0, 5)]] for _ in range(rng.randint(0, 1))]
+    tail = rng.choice(["none", "other", "same"])
+    b = [["s", ["item", 0, rng.randint(0, 5)], "value"]]
+    if tail == "other":
+        b.append(["y", ["item", 1, rng.randint(0, 5)]])
+    elif tail == "same":
+        b.append(["y", ["item", 0, rng.randint(0, 5)]])
+    calls = [["call", 1, []] for _ in range(na)] + [["call", 2, []]]
+    if rng.random() < 0.3:
+        calls.append(["call", 1, []])
+    templates = [{"kind": "fn", "steps": [["y", [rng.choice(["t", "l"]), calls]]]}, {"kind": "fn", "steps": a}, {"kind": "fn", "steps": b}]
+    spec = {"templates": templates, "root": {"tmpl": 0, "conv": rng.choice(["call", "value", "wrapped"])},
+            "kinds": kinds, "svs": 1, "yield_only": False, "reentry": True,
+            "faults": {"items": {}, "flushes": {}, "ctx": {}}, "prio": gen_prio(rng, kinds)}
+    if rng.random() < 0.5:
+        spec["options"] = {"KEEP_DEPENDENCIES": True}
+    return spec
+
+
 def motif_wide(rng, kind):
     """One yield of more than a thousand tasks that each wait for a request of the same batch
     kind (a batch of 1000+ items), inside a context / NonAsyncContext / plain."""
